@@ -711,6 +711,12 @@ class ScriptGen:
             if not opts:
                 return None
             term = self.pick(opts, "term")
+            others = [p_ for p_ in self.phase_names if term[0] == "switch" and p_ != term[1]]
+            if term[0] == "switch" and len(self.phase_names) >= 3 and others and t.chance(0.7, "switchburst"):
+                # two guarded switches to two different phases in the same block
+                c1, c2 = self.g_bool(D, 1), self.g_bool(D, 1)
+                return [("if", ("1", c1, self.mode()), [term], None),
+                        ("if", ("1", c2, self.mode()), [("switch", self.pick(others, "sw2"))], None)]
             if depth >= self.max_depth and not (F.dead_code and t.chance(0.15, "bareterm")):
                 # guard it so that the phase is not always cut short
                 c = self.g_bool(D, 1)
